@@ -323,10 +323,19 @@ def run_property(prop, tier, seed, replay_path=None):
                                       "other_failing_cases": len(unknown_fail) - 1})
             say("VIOLATION property=%s replay=%s" % (pid, path))
             violations.append(path)
-        elif bb_fails:
+        elif bb_fails and any(not f.get("tie") for f in bb_fails):
+            conc = [f for f in bb_fails if not f.get("tie")]
             path = write_replay(pid, {"property": pid, "kind": "oracle", "seed": seed, "engine": "black-box program",
-                                      "failures": [f["msg"] for f in bb_fails][:8], "detail": bb_fails[0]})
+                                      "failures": [f["msg"] for f in conc][:8], "detail": conc[0]})
             say("VIOLATION property=%s replay=%s" % (pid, path))
+            violations.append(path)
+        elif bb_fails:
+            # the black-box part compared a MODEL function with an independent oracle (e.g. Go's own test runner) and they differ:
+            # a broken tie, no input on which the library fails
+            path = write_replay(pid, {"property": pid, "kind": "correspondence", "seed": seed, "engine": "black-box program",
+                                      "relation": "model function against the independent oracle of the black-box part",
+                                      "mismatches": [f["msg"] for f in bb_fails][:8]})
+            say("VIOLATION property=%s replay=%s no-failing-input-found" % (pid, path))
             violations.append(path)
         elif mism_cases:
             c, mm = mism_cases[0]
